@@ -1,6 +1,6 @@
 (* C01 — a target never starts before all of its dependencies are ready.
    Property theorems only; proofs are in Proofs/SysC01.v. *)
-From Zinoma.Proofs Require Import SysC01 ActorWords.
+From Zinoma.Proofs Require Import SysC01 ActorWords SysWatchLive2.
 
 (* For every reachable state of the system (any graph the resolver can output, any requested set, one-shot or watch
    mode, with or without the FX1 repair, any interleaving of deliveries, completions, failures, change notices and
@@ -31,6 +31,20 @@ Theorem C01_watch_latest_word :
     run_events fx (init_actor t kd deps) es = Some (a', ob) -> ObStart t ∈ ob ->
     forall d k, d ∈ deps -> lastword es k d = Some true.
 Proof. exact start_needs_latest_ok. Qed.
+
+(* ... and at system level (repaired handlers, any mode, every closed acyclic graph, every interleaving and merge order): in
+   every reachable state inside the root loop, whatever a target has RECORDED as available — the record its start condition
+   reads — is available now (a build or service: its last execution completed and nothing invalidated it since; an aggregate:
+   every dependency acknowledged), unless the out-of-date notice that says otherwise is already waiting in the target's own
+   inbox.  A target therefore never starts on a dependency that is out of date without the notice being on its way. *)
+Theorem C01_recorded_available_is_available :
+  forall (g : graph) (roots : list tid) (w : bool) (rank : tid -> nat),
+    (forall t k deps d, g !! t = Some (k, deps) -> d ∈ deps -> is_Some (g !! d)) ->
+    (forall t k deps d, g !! t = Some (k, deps) -> d ∈ deps -> rank d < rank t) ->
+    forall s, reachable true w g roots s -> ph s = PRun ->
+    forall R aR d ad k, actors s !! R = Some aR -> actors s !! d = Some ad -> own ad k -> ATarget R ∈ reqs ad k ->
+      d ∉ unav aR k -> availb ad k = true \/ MInvalidated k d ∈ inb (inbox s) R.
+Proof. exact recorded_available. Qed.
 
 (* non-vacuity: a two-target project `b: [a]` reaches a state whose history is start a, success a, start b *)
 Example C01_nonvacuous :
